@@ -269,7 +269,13 @@ def run_unit(unit, tier):
     res = core.new_result()
     dig = core.Digest()
     dig.add((topo.canon(unit['spec']), unit.get('order')))
-    outcome, nturn, viols, nmarkets = check_spec(unit['spec'], unit['labels'], unit.get('order', 'canonical'))
+    try:
+        outcome, nturn, viols, nmarkets = check_spec(unit['spec'], unit['labels'], unit.get('order', 'canonical'))
+    except KeyError as e:
+        # a variable the market identities need does not exist in the emitted system
+        case = {'spec': unit['spec'], 'labels': unit['labels'], 'order': unit.get('order', 'canonical')}
+        outcome, nturn, nmarkets = 'variable-missing', 0, 0
+        viols = [core.violation('market-variable-missing', 'variable %s is not defined in the emitted system' % (e,), case)]
     H = unit['spec'].get('horizon', 3)
     res['evaluations'] = 1
     res['states'] = nmarkets * (H + 1)
@@ -293,4 +299,7 @@ def run_unit(unit, tier):
 
 
 def replay(case):
-    return check_spec(case['spec'], case.get('labels', []), case.get('order', 'canonical'))[2][:1]
+    try:
+        return check_spec(case['spec'], case.get('labels', []), case.get('order', 'canonical'))[2][:1]
+    except KeyError as e:
+        return [core.violation('market-variable-missing', 'variable %s is not defined in the emitted system' % (e,), case)]
